@@ -17,7 +17,7 @@ SIZES = {
     "thorough": list(range(0, 41)) + [63, 64, 65, 127, 128, 129, 255, 256, 257],
 }
 # families whose cost grows quadratically or whose depth is limited by recursion get a cap
-CAPS = {"afterrefusal": 12, "reusedeep": 64, "deep": 60, "cases": 130, "blocks": 130, "poly": 40, "rowpoly": 130, "funcs": 130}
+CAPS = {"lateconst": 3, "afterrefusal": 12, "reusedeep": 64, "deep": 60, "cases": 130, "blocks": 130, "poly": 40, "rowpoly": 130, "funcs": 130}
 
 
 def _host(host, in_types):
@@ -301,6 +301,30 @@ def reusedeep(host, n):
     return _finish(m, d)
 
 
+def lateconst(host, n):
+    """A function-valued constant over a body that is finished only later; before that the whole graph is
+    serialized n times (each attempt is refused: the body has no outputs yet) and observed otherwise."""
+    from hugr import tys, val
+    from hugr.build.dfg import Dfg
+    from hugr.std.logic import Not
+
+    m, d = _host(host, [tys.Bool])
+    (a,) = d.inputs()
+    body = Dfg(tys.Bool)
+    x = body.add(Not(body.inputs()[0]), metadata={"in-body": n})
+    c = d.add_const(val.Function(body.hugr))
+    for _ in range(n):
+        for f in (lambda: d.hugr.to_json(), lambda: d.hugr.render_dot(), lambda: d.hugr.port_kind(c.out(0)), lambda: d.hugr.to_model()):
+            try:
+                f()
+            except Exception:  # noqa: BLE001
+                pass
+    body.set_outputs(x)
+    fv = d.load(c)
+    d.set_outputs(a, fv)
+    return _finish(m, d)
+
+
 def afterrefusal(host, n):
     """History with a refused call in it: n spare nodes are deleted (free indices), an insert_nested with a wire
     from inside a sibling region is refused, then building goes on (another insertion, an op, the outputs).
@@ -327,7 +351,7 @@ def afterrefusal(host, n):
 
 
 FAMILIES = {"crossorder": crossorder, "reusedeep": reusedeep, "wide": wide, "fanout": fanout, "chain": chain, "deep": deep, "cases": cases, "blocks": blocks, "loops": loops,
-            "funcs": funcs, "poly": poly, "rowpoly": rowpoly, "reuse": reuse, "afterrefusal": afterrefusal}
+            "funcs": funcs, "poly": poly, "rowpoly": rowpoly, "reuse": reuse, "afterrefusal": afterrefusal, "lateconst": lateconst}
 MODULE_ONLY = {"funcs", "poly", "rowpoly"}
 #: families whose HUGR holds what a refused call left behind (an unwired copy): not valid, not drawn/exported - only
 #: the serializer's own promises (C02 round trip, C03 document sanity) are judged on them
